@@ -21,12 +21,14 @@ type prodCase struct {
 	Bytes []int   // NewDense triangle (values 0..255)
 	Lists [][]int // NewSparse neighbour lists (unsorted, with repeats)
 	Seed  int64
+	Text  word     // DecodeAnyString: the string; Rep = "graph6" or "sparse6"
+	Chain [][3]int // TransformChain: (0 = SplitEdge, 1 = Contract; i; j) applied in order
 }
 
 var prodNames = []string{"NewDense", "NewDenseNil", "NewSparse", "NewSparseNil", "Complete", "CompletePartite", "Path", "Star", "Cycle",
 	"Hypercube", "FoldedHypercube", "Kneser", "BipartiteKneser", "Circulant", "CirculantBipartite", "GeneralisedPetersen",
 	"Friendship", "FlowerSnark", "Rook", "RandomGraph", "RandomTree", "ComplementDense", "ComplementView", "InducedView",
-	"LineGraphDense", "SplitEdge", "Contract", "PruferDecode", "MulticodeDecode", "Graph6Decode", "Sparse6Decode"}
+	"LineGraphDense", "SplitEdge", "Contract", "PruferDecode", "MulticodeDecode", "Graph6Decode", "Sparse6Decode", "TransformChain", "DecodeAnyString", "Sparse6PairStream"}
 
 func genProdCase(t *rapid.T) prodCase {
 	c := prodCase{Prod: rapid.SampledFrom(prodNames).Draw(t, "prod"), Ints: []int{}, Bytes: []int{}, Lists: [][]int{}}
@@ -116,6 +118,58 @@ func genProdCase(t *rapid.T) prodCase {
 		if c.B >= c.A {
 			c.B++
 		}
+	case "TransformChain":
+		g := genAnyGraph(t, 8)
+		if g.N < 2 {
+			g = mPath(3)
+		}
+		c.G = specOf(g)
+		n := g.N
+		for k := small("chainlen", 2, 6); k > 0 && n >= 2; k-- {
+			op := small("op", 0, 1)
+			i := small("ci", 0, n-1)
+			j := small("cj", 0, n-2)
+			if j >= i {
+				j++
+			}
+			c.Chain = append(c.Chain, [3]int{op, i, j})
+			if op == 0 {
+				n++
+			} else {
+				n--
+			}
+		}
+	case "DecodeAnyString":
+		dc := genDecodeCase(t)
+		c.Text, c.Rep = dc.S, dc.Format
+	case "Sparse6PairStream":
+		// a syntactically valid sparse6 stream of arbitrary (b, x) pairs: loops, repeated edges, jumps past n
+		n := small("n", 1, 20)
+		k := 0
+		for x := n - 1; x > 0; x >>= 1 {
+			k++
+		}
+		bits := []int{}
+		for p := small("pairs", 0, 14); p > 0; p-- {
+			bits = append(bits, small("b", 0, 1))
+			x := small("x", 0, (1<<uint(k))-1)
+			for r := k - 1; r >= 0; r-- {
+				bits = append(bits, x>>uint(r)&1)
+			}
+		}
+		for len(bits)%6 != 0 {
+			bits = append(bits, 1)
+		}
+		out := []byte{':', byte(n + 63)}
+		for i := 0; i < len(bits); i += 6 {
+			v := 0
+			for _, b := range bits[i : i+6] {
+				v = v<<1 | b
+			}
+			out = append(out, byte(v+63))
+		}
+		c.Text, c.Rep = word(out), "sparse6"
+		c.Prod = "DecodeAnyString"
 	case "PruferDecode":
 		n := small("n", 2, 10)
 		for i := 0; i < n-2; i++ {
@@ -485,6 +539,77 @@ func checkProdCase(c prodCase, rec *Rec) error {
 		}
 		rec.NonTrivial(g.M() > 0)
 		return nil
+	case "TransformChain":
+		g := c.G.Model()
+		for _, how := range buildWays {
+			bd, bs, berr := builtBy(how, g)
+			if berr != nil {
+				return berr
+			}
+			for name, eg := range map[string]graph.EditableGraph{"dense/" + how: bd, "sparse/" + how: bs} {
+				m := g.Copy()
+				for step, op := range c.Chain {
+					if op[1] >= m.N || op[2] >= m.N || op[1] == op[2] {
+						break
+					}
+					if p := try(func() {
+						if op[0] == 0 {
+							graph.SplitEdge(eg, op[1], op[2])
+						} else {
+							graph.Contract(eg, op[1], op[2])
+						}
+					}); p != nil {
+						return fmt.Errorf("chain %v on the %s graph %v panicked at step %d: %v", c.Chain, name, c.G, step, p)
+					}
+					if op[0] == 0 {
+						m.Del(op[1], op[2])
+						m.AddVertex([]int{op[1], op[2]})
+					} else {
+						for _, v := range m.Nbrs(op[2]) {
+							m.Add(op[1], v)
+						}
+						m.RemoveVertex(op[2])
+					}
+					if err = sameAs(fmt.Sprintf("after step %d of the SplitEdge/Contract chain %v on the %s graph %v", step, c.Chain, name, c.G), eg, m); err != nil {
+						return err
+					}
+				}
+			}
+		}
+		rec.NonTrivial(len(c.Chain) >= 2)
+		return nil
+	case "DecodeAnyString":
+		// whatever string a decoder accepts, the graph it returns must be well formed
+		s := string(c.Text)
+		if n, ok := declaredSize(c.Rep, []byte(s)); ok && n > maxDeclaredN {
+			return nil
+		}
+		var derr error
+		var gr graph.Graph
+		if p := try(func() {
+			if c.Rep == "graph6" {
+				var d *graph.DenseGraph
+				d, derr = graph.Graph6Decode(s)
+				gr = d
+			} else {
+				var d *graph.SparseGraph
+				d, derr = graph.Sparse6Decode(s)
+				gr = d
+			}
+		}); p != nil {
+			return nil // totality of the decoders is C08's business
+		}
+		if derr != nil {
+			rec.Label("decode-any-rejected")
+			return nil
+		}
+		rec.Label("decode-any-accepted")
+		rec.NonTrivial(gr.N() >= 2)
+		if gr.N() > 300 {
+			return nil
+		}
+		_, werr := wellFormed(fmt.Sprintf("%sDecode(%q)", c.Rep, s), gr)
+		return werr
 	case "PruferDecode":
 		want = oracle.RefPruferDecode(c.Ints)
 		code := append([]int{}, c.Ints...)
@@ -583,7 +708,7 @@ func enumProdBoundaries(yield func(prodCase) bool) {
 
 func init() {
 	RegisterRapid("C06_producers",
-		"rapid: one of 31 producers with generated parameters: NewDense (bytes 0,1,2,255; caller mutates the slice afterwards), NewSparse (unsorted lists with repeats; caller mutates afterwards), nil variants, the named families at sizes 0..12 incl. every smallest size (definitions re-implemented in the harness; Kneser/BipartiteKneser in colex vertex order per the doc comments, Rook up to isomorphism), RandomGraph (p in {0,1,.25,.5}: determinism per seed, empty/complete), RandomTree, ComplementDense / Complement view / InducedSubgraph view (views also re-read after editing the underlying graph), LineGraphDense, SplitEdge and Contract on both representations, PruferDecode, MulticodeDecode, Graph6Decode, Sparse6Decode on reference encodings. Every result must pass the well-formedness predicate (IsEdge symmetric and loop-free, M, Degrees, ascending Neighbours consistent, no panic) and equal the definition. Non-trivial: result has an edge or is one of the smallest sizes.",
+		"rapid: one of 31 producers with generated parameters: NewDense (bytes 0,1,2,255; caller mutates the slice afterwards), NewSparse (unsorted lists with repeats; caller mutates afterwards), nil variants, the named families at sizes 0..12 incl. every smallest size (definitions re-implemented in the harness; Kneser/BipartiteKneser in colex vertex order per the doc comments, Rook up to isomorphism), RandomGraph (p in {0,1,.25,.5}: determinism per seed, empty/complete), RandomTree, ComplementDense / Complement view / InducedSubgraph view (views also re-read after editing the underlying graph), LineGraphDense, SplitEdge and Contract on both representations, PruferDecode, MulticodeDecode, Graph6Decode, Sparse6Decode on reference encodings; chains of 2..6 SplitEdge/Contract steps on graphs built four ways; and the decoders on arbitrary accepted strings (the C08 string generator plus syntactically valid sparse6 streams of arbitrary (b,x) pairs with loops, repeats and jumps), whose results must be well formed. Every result must pass the well-formedness predicate (IsEdge symmetric and loop-free, M, Degrees, ascending Neighbours consistent, no panic) and equal the definition. Non-trivial: result has an edge or is one of the smallest sizes.",
 		Budget{Checks: 5000, Shards: 1}, Budget{Checks: 400000, Shards: 16}, genProdCase, checkProdCase)
 	RegisterEnum("C06_boundaries",
 		"enumeration: every parameter-only family at every size 0..7 (Cycle >= 3, Hypercube <= 5, FoldedHypercube 1..6, Kneser/BipartiteKneser all k <= n+1 / k <= n for n <= 6, GeneralisedPetersen all valid k, Rook a,b <= 4, CompletePartite with three parts of size 0..3, FlowerSnark 3,5,7). Complete for that family.",
